@@ -1515,11 +1515,13 @@ func (c *Conn) ApiVersions() ([]ApiVersion, error) {
 		return nil, err
 	}
 	defer lock.Unlock()
-	defer verifTrace("conn.done", c, id, nil) // runs before lock.Unlock()
+	var verifErr error
+	defer func() { verifTrace("conn.done", c, id, verifErr) }() // runs before lock.Unlock()
 
 	// When the response cannot be read completely the connection is left in
 	// the middle of a frame, it must not be used again.
 	fail := func(err error) ([]ApiVersion, error) {
+		verifErr = err
 		c.conn.Close()
 		return nil, err
 	}
